@@ -28,6 +28,14 @@ class SimRetriable(Exception):
     """An application error that tasks may list in retry_for."""
 
 
+class SimRetriableSub(SimRetriable):
+    """A strict subclass of a class listed in retry_for (retry_for matches like `except`: subclasses included)."""
+
+
+class SimRetrySub(RetryError):
+    """A strict subclass of the default retriable exception."""
+
+
 def reset() -> None:
     ATTEMPTS.clear()
     INV_ATTEMPTS.clear()
@@ -90,6 +98,10 @@ def _make_exc(kind: str, node: str, attempt: int) -> Exception:
         return RetryError()
     if kind == "retriable":
         return SimRetriable(node, attempt)
+    if kind == "retriable-sub":
+        return SimRetriableSub(node, attempt)
+    if kind == "retry-sub":
+        return SimRetrySub()
     if kind == "value":
         return ValueError(f"{node}#{attempt}")
     return SimError(node, attempt)
